@@ -286,8 +286,17 @@ def stepLogin (s : State) (h utype : Nat) (pin : Option Bytes) : State × Resp :
                 ({ s with slots := setTok s.slots ss.slot { t with userLow := true } }, { rv := CKR.PIN_INCORRECT })
               else
                 ({ s with slots := setTok s.slots ss.slot { t with userLow := false, userIn := true } }, { rv := CKR.OK })
-        | 2 =>                     -- CKU_CONTEXT_SPECIFIC: no operation requested re-authentication
-          rOnly s CKR.OPERATION_NOT_INITIALIZED
+        | 2 =>                     -- CKU_CONTEXT_SPECIFIC: only when an operation on a CKA_ALWAYS_AUTHENTICATE key asked for it
+          if !ss.opd.reauth then rOnly s CKR.OPERATION_NOT_INITIALIZED
+          else if t.soIn then       -- Token::reAuthenticate
+            (if p != t.soPin then ({ s with slots := setTok s.slots ss.slot { t with soLow := true } }, { rv := CKR.PIN_INCORRECT })
+             else ({ s with slots := setTok s.slots ss.slot { t with soLow := false },
+                            handles := s.handles.setSess h { ss with opd := { ss.opd with reauth := false } } }, { rv := CKR.OK }))
+          else if t.userIn then
+            (if some p != t.userPin then ({ s with slots := setTok s.slots ss.slot { t with userLow := true } }, { rv := CKR.PIN_INCORRECT })
+             else ({ s with slots := setTok s.slots ss.slot { t with userLow := false },
+                            handles := s.handles.setSess h { ss with opd := { ss.opd with reauth := false } } }, { rv := CKR.OK }))
+          else rOnly s CKR.OPERATION_NOT_INITIALIZED
         | _ => rOnly s CKR.USER_TYPE_INVALID
 
 def stepLogout (s : State) (h : Nat) : State × Resp :=
